@@ -5,7 +5,7 @@
 (***************************************************************************)
 EXTENDS Serde, Json, Sequences
 
-CONSTANTS Strata,     \* subset of {"structure", "values", "tops", "roundtrip"}
+CONSTANTS Strata,     \* subset of {"structure", "values", "tops", "positional", "roundtrip"}
           MaxLen,     \* maximal number of fields in the structure stratum
           RtMax,      \* round-trip stratum: every shape 0..RtMax x 0..RtMax ...
           RtExtra     \* ... plus these larger ones, each encoded as 1000 * nc + nr
@@ -44,6 +44,14 @@ InitValues == /\ "values" \in Strata
 InitTops == /\ "tops" \in Strata
             /\ \E t \in {"array", "number", "string", "null"} : doc = [top |-> t, fields |-> << >>]
             /\ meta = "tops"
+\* positional documents: a top-level sequence of up to MaxLen items, each a dimension token or a data token
+\* (items are drawn through an integer code: TLC cannot hold integers and records in one set)
+PosItem(k) == CASE k = 0 -> 0 [] k = 1 -> 1 [] k = 2 -> 2 [] k = 3 -> 5 [] k = 4 -> MAXU [] k = 5 -> NEG [] k = 6 -> STR [] k = 7 -> NUL
+                [] k = 8 -> Arr(0, 0) [] k = 9 -> Arr(2, 0) [] k = 10 -> Arr(1, 1) [] k = 11 -> Arr(5, 0)
+InitPositional == /\ "positional" \in Strata
+                  /\ \E n \in 0..MaxLen : \E ks \in [1..n -> 0..11] :
+                        doc = [top |-> "array", fields |-> [i \in 1..n |-> F("pos", PosItem(ks[i]))]]
+                  /\ meta = "positional"
 InitRoundTrip == /\ "roundtrip" \in Strata
                  /\ \E sh \in {1000 * c + r : c \in 0..RtMax, r \in 0..RtMax} \cup RtExtra, v \in {"owned", "view"} :
                     LET nc == sh \div 1000  nr == sh % 1000 IN
@@ -51,7 +59,7 @@ InitRoundTrip == /\ "roundtrip" \in Strata
                       /\ doc = IF v = "owned" THEN SerOwned(nc, nr) ELSE SerView(nc, nr)
                       /\ meta = "roundtrip_" \o v
 
-Init == /\ (InitStructure \/ InitValues \/ InitTops \/ InitRoundTrip)
+Init == /\ (InitStructure \/ InitValues \/ InitTops \/ InitPositional \/ InitRoundTrip)
         /\ phase = "pending" /\ result = Err
 
 Deserialize == /\ phase = "pending"
@@ -59,7 +67,8 @@ Deserialize == /\ phase = "pending"
                /\ result' = Expected(doc)
                /\ UNCHANGED <<doc, meta>>
                /\ PrintT(<<"CASE", ToJson([fam |-> "serde", stratum |-> meta, doc |-> doc,
-                                           x |-> [res |-> Expected(doc), may_reject |-> MayReject(doc)]])>>)
+                                           x |-> [res |-> Expected(doc), may_reject |-> MayReject(doc),
+                                                  may_accept_consistent |-> MayAcceptConsistent(doc)]])>>)
 Next == Deserialize
 Spec == Init /\ [][Next]_vars
 
